@@ -172,8 +172,23 @@ fn rg(r: &ast::Range) -> (usize, usize) {
 }
 
 /// Classes of validation diagnostics, recognised by the words the property statements use.
+/// the message without the names it quotes between backticks (user-chosen identifiers must not steer the classification)
+fn without_quoted_names(msg: &str) -> String {
+    let mut out = String::new();
+    let mut inside = false;
+    for c in msg.chars() {
+        if c == '`' {
+            inside = !inside;
+            out.push(' ');
+        } else if !inside {
+            out.push(c);
+        }
+    }
+    out
+}
+
 pub fn classify(d: &Diagnostic) -> Option<&'static str> {
-    let m = d.message.to_lowercase();
+    let m = without_quoted_names(&d.message).to_lowercase();
     let c = d.context_message.as_deref().unwrap_or("").to_lowercase();
     let has = |w: &str| m.contains(w);
     if has("unknown type") || (c.contains("unknown type") && !has("import")) {
